@@ -4,7 +4,8 @@ from pyvc.api import *
 PROP = 'C20'
 REPLAYERS = {q: 'replayers/manager_refs.py' for q in (
     'managers.Server.incref', 'managers.Server.decref', 'managers.Server.create', 'managers.Server.handle_request',
-    'managers.Server.serve_client', 'managers.dispatch', 'managers.BaseProxy._decref', 'managers.BaseProxy._incref')}
+    'managers.Server.serve_client', 'managers.dispatch', 'managers.BaseProxy._decref', 'managers.BaseProxy._incref',
+    'managers.BaseProxy._callmethod')}
 
 ASSUMPTIONS = [
     'deliver_challenge / answer_challenge have the contracts proved in C18 (they return only for a peer that holds the key; '
@@ -25,8 +26,8 @@ OUT_OF_REACH = [
     'a referent across processes is the induction over incref/decref calls (meta-argument); that util.Finalize runs the '
     'registered finalizer when the proxy is dropped is an assumed contract (BaseProxy._incref / _decref themselves are under '
     'contract)',
-    'BaseProxy._callmethod (the proxy method that wraps dispatch: thread-local connection, #PROXY answers) is not under '
-    'contract; managers.dispatch, the function it shares the answer handling with, is',
+    'of BaseProxy._callmethod the branch that first connects this thread (_connect) is excluded by the precondition "this '
+    'thread owns a connection"',
 ]
 
 RC, OBJ = 'self.id_to_refcount', 'self.id_to_obj'
@@ -367,10 +368,14 @@ MANIFEST_ENTRY = {
             'with the proxy\'s key, remembers the id, and registers exactly one finalizer -- _decref with this proxy\'s token, '
             'key, manager state, thread-local store and id set; _decref forgets the id and sends exactly one decref for that '
             'object unless the manager is known to be shut down -- in particular also for a proxy without a manager object (a '
-            'pickled copy, a forked child) -- and closes the thread\'s connection exactly with the last proxy of the process.',
+            'pickled copy, a forked child) -- and closes the thread\'s connection exactly with the last proxy of the process.  '
+            'BaseProxy._callmethod sends one request naming its own object, the method and the arguments; hands a plain value '
+            'on unchanged; for a result that comes back as an object of its own it builds one proxy for *that* object and gives '
+            'the reference the server took for the transit back -- a decref for the returned object, not for the one the '
+            'method was called on; the referent\'s exception is re-raised, server-side failures raise RemoteError.',
     'note': 'Sequential core only: atomicity under concurrent clients is reduced to the mutex discipline; that proxy operations '
             'return what local ones would is covered as far as "the server hands back the referent\'s own result / exception '
-            'unchanged and the client hands that on" (pickling and the referent are foreign code); BaseProxy._callmethod and the '
-            'proxies\' own incref/decref calls (finalizers) are not under contract.  The challenge functions are used through '
-            'C18\'s contracts (here: return or raise).',
+            'unchanged and the client hands that on" (pickling and the referent are foreign code); that the finalizers run when '
+            'a proxy is dropped is an assumed contract of util.Finalize.  The challenge functions are used through C18\'s '
+            'contracts (here: return or raise).',
 }
